@@ -3,71 +3,11 @@
 // H1 registered), parsed again and read back once more; libpcap is asked a set of filter predicates derived
 // from the values that were set.  The TLA+ dissector (spec/wire/Stack.tla) then reads the bytes independently.
 #include "vh.h"
-#include <tins/tins.h>
+#include "wirebuild.h"
 #include <pcap.h>
-using namespace Tins;
-typedef std::vector<uint8_t> Bytes;
 
 static std::vector<std::pair<int, long> > OVERWRITES;
 static void region_hook(int type, long off) { OVERWRITES.push_back(std::make_pair(type, off)); }
-
-struct Opt { int kind; Bytes data; };
-struct Vals {
-    Bytes eth_dst, eth_src; std::vector<long> vid, pcp;
-    Bytes ip_src, ip_dst; long ttl, tos, ipid, df, flow, sport, dport, win, flags, icmp_id, icmp_seq; Bytes seq, ack;
-    std::vector<Opt> ip4opts, tcpopts, ext; Bytes payload;
-    Vals() : ttl(0), tos(0), ipid(0), df(0), flow(0), sport(0), dport(0), win(0), flags(0), icmp_id(0), icmp_seq(0) {}
-};
-static void be32(Bytes& b, uint32_t v) { b.push_back(v >> 24); b.push_back(v >> 16); b.push_back(v >> 8); b.push_back(v); }
-static uint32_t rd32(const Bytes& b) { return ((uint32_t)b[0] << 24) | (b[1] << 16) | (b[2] << 8) | b[3]; }
-static void opts_json(vh::W& w, const char* key, const std::vector<Opt>& o) { w.key(key).A(); for (size_t i = 0; i < o.size(); ++i) { w.A().v(o[i].kind).bytes(o[i].data.begin(), o[i].data.end()).E(); } w.E(); }
-static void vals_json(vh::W& w, const Vals& v) {
-    w.O().kbytes("eth_dst", v.eth_dst).kbytes("eth_src", v.eth_src);
-    w.key("vid").A(); for (size_t i = 0; i < v.vid.size(); ++i) w.v(v.vid[i]); w.E();
-    w.key("pcp").A(); for (size_t i = 0; i < v.pcp.size(); ++i) w.v(v.pcp[i]); w.E();
-    w.kbytes("ip_src", v.ip_src).kbytes("ip_dst", v.ip_dst).kv("ttl", v.ttl).kv("tos", v.tos).kv("ipid", v.ipid).kv("df", v.df).kv("flow", v.flow)
-     .kv("sport", v.sport).kv("dport", v.dport).kv("win", v.win).kv("flags", v.flags).kv("icmp_id", v.icmp_id).kv("icmp_seq", v.icmp_seq).kbytes("seq", v.seq).kbytes("ack", v.ack);
-    opts_json(w, "ip4opts", v.ip4opts); opts_json(w, "tcpopts", v.tcpopts); opts_json(w, "ext", v.ext);
-    w.kbytes("payload", v.payload).E();
-}
-
-// payload classes: sizes and one's-complement corner cases
-static Bytes make_payload(const std::string& cls, vh::Rng& rng) {
-    Bytes p;
-    if (cls == "empty") return p;
-    if (cls == "one") { p.push_back((uint8_t)rng.below(256)); return p; }
-    size_t n = cls == "odd" ? 2 * rng.range(1, 40) + 1 : cls == "even" ? 2 * rng.range(1, 40) : cls == "big" ? (size_t)rng.range(1300, 1472) : cls == "huge" ? (size_t)rng.range(60000, 65000) : (size_t)(2 * rng.range(2, 30));
-    for (size_t i = 0; i < n; ++i) p.push_back((uint8_t)rng.below(256));
-    if (cls == "ones") for (size_t i = 0; i < n; ++i) p[i] = 0xff;          // every word 0xffff: the sum saturates
-    if (cls == "zeros") for (size_t i = 0; i < n; ++i) p[i] = 0;
-    if (cls == "carry") for (size_t i = 0; i < n; ++i) p[i] = (i % 2) ? 0xfe : 0xff;   // many end-around carries
-    return p;
-}
-static Bytes rnd(vh::Rng& rng, size_t n) { Bytes b; for (size_t i = 0; i < n; ++i) b.push_back((uint8_t)rng.below(256)); return b; }
-
-// read a libtins object back through its getters
-static void read_back(PDU& root, Vals& v) {
-    for (PDU* p = &root; p; p = p->inner_pdu()) {
-        switch (p->pdu_type()) {
-        case PDU::ETHERNET_II: { EthernetII* e = static_cast<EthernetII*>(p); EthernetII::address_type da = e->dst_addr(), sa = e->src_addr(); v.eth_dst.assign(da.begin(), da.end()); v.eth_src.assign(sa.begin(), sa.end()); break; }
-        case PDU::DOT1Q: case PDU::DOT1AD: { Dot1Q* q = static_cast<Dot1Q*>(p); v.vid.push_back(q->id()); v.pcp.push_back(q->priority()); break; }
-        case PDU::IP: { IP* ip = static_cast<IP*>(p); uint32_t s = Endian::be_to_host((uint32_t)ip->src_addr()), d = Endian::be_to_host((uint32_t)ip->dst_addr()); be32(v.ip_src, s); be32(v.ip_dst, d);
-            v.ttl = ip->ttl(); v.tos = ip->tos(); v.ipid = ip->id(); v.df = (ip->flags() & IP::DONT_FRAGMENT) ? 1 : 0;
-            for (IP::options_type::const_iterator it = ip->options().begin(); it != ip->options().end(); ++it) { Opt o; const IP::option_identifier& id = it->option(); o.kind = (id.copied << 7) | (id.op_class << 5) | id.number; o.data.assign(it->data_ptr(), it->data_ptr() + it->data_size()); v.ip4opts.push_back(o); } break; }
-        case PDU::IPv6: { IPv6* ip = static_cast<IPv6*>(p); IPv6Address sa6 = ip->src_addr(), da6 = ip->dst_addr(); v.ip_src.assign(sa6.begin(), sa6.end()); v.ip_dst.assign(da6.begin(), da6.end());
-            v.ttl = ip->hop_limit(); v.tos = ip->traffic_class(); v.flow = ip->flow_label();
-            for (IPv6::headers_type::const_iterator it = ip->headers().begin(); it != ip->headers().end(); ++it) { Opt o; o.kind = it->option(); o.data.assign(it->data_ptr(), it->data_ptr() + it->data_size()); v.ext.push_back(o); } break; }
-        case PDU::TCP: { TCP* t = static_cast<TCP*>(p); v.sport = t->sport(); v.dport = t->dport(); be32(v.seq, t->seq()); be32(v.ack, t->ack_seq()); v.win = t->window(); v.flags = t->flags();
-            for (TCP::options_type::const_iterator it = t->options().begin(); it != t->options().end(); ++it) { Opt o; o.kind = it->option(); o.data.assign(it->data_ptr(), it->data_ptr() + it->data_size()); v.tcpopts.push_back(o); } break; }
-        case PDU::UDP: { UDP* u = static_cast<UDP*>(p); v.sport = u->sport(); v.dport = u->dport(); break; }
-        case PDU::ICMP: { ICMP* i = static_cast<ICMP*>(p); v.icmp_id = i->id(); v.icmp_seq = i->sequence(); v.flags = i->type(); break; }
-        case PDU::ICMPv6: { ICMPv6* i = static_cast<ICMPv6*>(p); v.icmp_id = i->identifier(); v.icmp_seq = i->sequence(); v.flags = i->type(); break; }
-        case PDU::RAW: { RawPDU* r = static_cast<RawPDU*>(p); v.payload = r->payload(); break; }
-        default: break;
-        }
-    }
-}
-static void types_json(vh::W& w, const char* key, PDU& root) { w.key(key).A(); for (PDU* p = &root; p; p = p->inner_pdu()) w.v((long)p->pdu_type()); w.E(); }
 
 static bool bpf_match(const std::string& expr, const Bytes& pkt, bool& compiled) {
     pcap_t* dead = pcap_open_dead(DLT_EN10MB, 65535); struct bpf_program prog; compiled = pcap_compile(dead, &prog, expr.c_str(), 1, PCAP_NETMASK_UNKNOWN) == 0;
@@ -75,79 +15,11 @@ static bool bpf_match(const std::string& expr, const Bytes& pkt, bool& compiled)
     if (compiled) { struct pcap_pkthdr h; memset(&h, 0, sizeof(h)); h.caplen = h.len = (bpf_u_int32)pkt.size(); res = pcap_offline_filter(&prog, &h, &pkt[0]) != 0; pcap_freecode(&prog); }
     pcap_close(dead); return res;
 }
-static std::string ip4s(const Bytes& b) { return std::to_string(b[0]) + "." + std::to_string(b[1]) + "." + std::to_string(b[2]) + "." + std::to_string(b[3]); }
 
 static void scenario(const vh::Json& sc, vh::Out& out, vh::Rng& rng, const vh::Args&) {
-    const std::string link = sc["link"].str(), net = sc["net"].str(), tr = sc["tr"].str();
-    Vals v;
-    // ---- build through the API ----
-    v.eth_dst = rnd(rng, 6); v.eth_src = rnd(rng, 6); v.eth_dst[0] &= 0xfe;
-    EthernetII eth; eth.dst_addr(EthernetII::address_type(&v.eth_dst[0])); eth.src_addr(EthernetII::address_type(&v.eth_src[0]));
-    PDU* tail = &eth;
-    int ntags = link == "vlan" ? 1 : link == "qinq" ? 2 : 0;
-    for (int i = 0; i < ntags; ++i) { long vid = rng.below(4) == 0 ? (rng.coin() ? 0 : 4095) : rng.below(4096), pcp = rng.below(8); v.vid.push_back(vid); v.pcp.push_back(pcp); Dot1Q* q = new Dot1Q((small_uint<12>)(uint16_t)vid); q->priority((small_uint<3>)(uint8_t)pcp); tail->inner_pdu(q); tail = q; }
-    if (net == "ip4") {
-        v.ip_src = rnd(rng, 4); v.ip_dst = rnd(rng, 4); if (v.ip_src[0] == 0) v.ip_src[0] = 10;
-        IP* ip = new IP(IPv4Address(ip4s(v.ip_dst)), IPv4Address(ip4s(v.ip_src)));
-        v.ttl = rng.range(1, 255); v.tos = rng.below(256); v.ipid = rng.below(65536); v.df = rng.coin();
-        ip->ttl((uint8_t)v.ttl); ip->tos((uint8_t)v.tos); ip->id((uint16_t)v.ipid); if (v.df) ip->flags(IP::DONT_FRAGMENT);
-        const std::string sh = sc["ip4opts"].str();
-        std::vector<std::pair<int, int> > plan;      // (type byte, data size)
-        if (sh == "nop") plan.push_back(std::make_pair(1, 0));
-        else if (sh == "rr") plan.push_back(std::make_pair(7, 7));
-        else if (sh == "sec") plan.push_back(std::make_pair(130, 9));
-        else if (sh == "nopnop_ts") { plan.push_back(std::make_pair(1, 0)); plan.push_back(std::make_pair(1, 0)); plan.push_back(std::make_pair(68, 6)); }
-        else if (sh == "odd") { plan.push_back(std::make_pair(148, 2)); plan.push_back(std::make_pair(136, 2)); plan.push_back(std::make_pair(1, 0)); }
-        else if (sh == "max") plan.push_back(std::make_pair(131, 38));
-        for (size_t i = 0; i < plan.size(); ++i) { Opt o; o.kind = plan[i].first; o.data = rnd(rng, plan[i].second); if (plan[i].first == 7 || plan[i].first == 131 || plan[i].first == 68) o.data[0] = 4; v.ip4opts.push_back(o);
-            ip->add_option(IP::option(IP::option_identifier((uint8_t)o.kind), o.data.begin(), o.data.end())); }
-        tail->inner_pdu(ip); tail = ip;
-    } else {
-        v.ip_src = rnd(rng, 16); v.ip_dst = rnd(rng, 16); v.ip_src[0] = 0x20; v.ip_dst[0] = 0x20;
-        IPv6* ip = new IPv6(IPv6Address(&v.ip_dst[0]), IPv6Address(&v.ip_src[0]));
-        v.ttl = rng.range(1, 255); v.tos = rng.below(256); v.flow = rng.below(1 << 20);
-        ip->hop_limit((uint8_t)v.ttl); ip->traffic_class((uint8_t)v.tos); ip->flow_label((small_uint<20>)(uint32_t)v.flow);
-        const std::string sh = sc["ext"].str();
-        std::vector<std::pair<int, int> > plan;
-        if (sh == "hbh") plan.push_back(std::make_pair(0, 6));
-        else if (sh == "dst") plan.push_back(std::make_pair(60, 14));
-        else if (sh == "hbh_dst") { plan.push_back(std::make_pair(0, 6)); plan.push_back(std::make_pair(60, 6)); }
-        else if (sh == "rt") plan.push_back(std::make_pair(43, 22));
-        else if (sh == "hbh7") plan.push_back(std::make_pair(0, 7));            // data sizes that are not 6 mod 8: padding needed
-        else if (sh == "dst3") plan.push_back(std::make_pair(60, 3));
-        else if (sh == "dst15_hbh") { plan.push_back(std::make_pair(0, 6)); plan.push_back(std::make_pair(60, 15)); }
-        else if (sh == "hbh_rt_dst") { plan.push_back(std::make_pair(0, 14)); plan.push_back(std::make_pair(43, 6)); plan.push_back(std::make_pair(60, 30)); }
-        for (size_t i = 0; i < plan.size(); ++i) { Opt o; o.kind = plan[i].first; o.data = rnd(rng, plan[i].second);
-            // keep option TLVs inside hop-by-hop / destination headers well formed: one PadN covering the data
-            if (o.kind != 43) { o.data[0] = 1; o.data[1] = (uint8_t)(plan[i].second - 2); for (size_t k = 2; k < o.data.size(); ++k) o.data[k] = 0; } else { o.data[0] = 0; o.data[1] = 0; }
-            v.ext.push_back(o); ip->add_header(IPv6::ext_header((uint8_t)o.kind, o.data.begin(), o.data.end())); }
-        tail->inner_pdu(ip); tail = ip;
-    }
-    v.payload = make_payload(sc["pay"].str(), rng);
-    if (tr == "tcp") {
-        v.sport = rng.below(65536); v.dport = rng.below(65536); v.seq = rnd(rng, 4); v.ack = rnd(rng, 4); v.win = rng.below(65536); v.flags = rng.below(512);
-        TCP* t = new TCP((uint16_t)v.dport, (uint16_t)v.sport); t->seq(rd32(v.seq)); t->ack_seq(rd32(v.ack)); t->window((uint16_t)v.win); t->flags((small_uint<12>)(uint16_t)v.flags);
-        const std::string sh = sc["tcpopts"].str();
-        if (sh == "mss" || sh == "mss_ws" || sh == "typical") { uint16_t m = (uint16_t)rng.below(65536); t->mss(m); Opt o; o.kind = 2; o.data.push_back(m >> 8); o.data.push_back(m & 255); v.tcpopts.push_back(o); }
-        if (sh == "typical") { t->sack_permitted(); Opt o; o.kind = 4; v.tcpopts.push_back(o); }
-        if (sh == "ts" || sh == "typical") { uint32_t a = rng.u32(), b = rng.u32(); t->timestamp(a, b); Opt o; o.kind = 8; be32(o.data, a); be32(o.data, b); v.tcpopts.push_back(o); }
-        if (sh == "mss_ws" || sh == "typical") { uint8_t s = (uint8_t)rng.below(15); t->winscale(s); Opt o; o.kind = 3; o.data.push_back(s); v.tcpopts.push_back(o); }
-        if (sh == "sack") { TCP::sack_type e; Opt o; o.kind = 5; for (int k = 0; k < 2 * rng.range(1, 3); ++k) { uint32_t x = rng.u32(); e.push_back(x); be32(o.data, x); } t->sack(e); v.tcpopts.push_back(o); }
-        if (sh == "empty_opt") { t->add_option(TCP::option((TCP::OptionTypes)34)); Opt o; o.kind = 34; v.tcpopts.push_back(o); }   // a kind > 1 option without data
-        if (sh == "nop_raw") { t->add_option(TCP::option(TCP::NOP)); Opt n; n.kind = 1; v.tcpopts.push_back(n); Opt o; o.kind = 253; o.data = rnd(rng, rng.range(1, 9)); t->add_option(TCP::option((TCP::OptionTypes)253, o.data.begin(), o.data.end())); v.tcpopts.push_back(o); }
-        tail->inner_pdu(t); tail = t;
-    } else if (tr == "udp") {
-        v.sport = rng.below(65536); v.dport = rng.below(65536);
-        UDP* u = new UDP((uint16_t)v.dport, (uint16_t)v.sport); tail->inner_pdu(u); tail = u;
-    } else if (tr == "icmp") {
-        v.icmp_id = rng.below(65536); v.icmp_seq = rng.below(65536); v.flags = rng.coin() ? 8 : 0;
-        ICMP* i = new ICMP((ICMP::Flags)v.flags); i->id((uint16_t)v.icmp_id); i->sequence((uint16_t)v.icmp_seq); tail->inner_pdu(i); tail = i;
-    } else {
-        v.icmp_id = rng.below(65536); v.icmp_seq = rng.below(65536); v.flags = rng.coin() ? 128 : 129;
-        ICMPv6* i = new ICMPv6((ICMPv6::Types)v.flags); i->identifier((uint16_t)v.icmp_id); i->sequence((uint16_t)v.icmp_seq); tail->inner_pdu(i); tail = i;
-    }
-    if (!v.payload.empty()) tail->inner_pdu(new RawPDU(v.payload.begin(), v.payload.end()));
-
+    Vals v; int ntags = 0;
+    const std::string net = sc["net"].str(), tr = sc["tr"].str();
+    EthernetII* ethp = build_packet(sc, rng, v, ntags); EthernetII& eth = *ethp;
     out.begin("\"cls\":\"api\"");
     vh::W w; w.O().kv("e", "pkt").kraw("shape", sc.dump());
     w.key("vals"); vals_json(w, v);
@@ -190,5 +62,6 @@ static void scenario(const vh::Json& sc, vh::Out& out, vh::Rng& rng, const vh::A
     }
     w.E();
     w.E(); out.event(w); out.end();
+    delete ethp;
 }
 int main(int argc, char** argv) { return vh::run(argc, argv, scenario); }
